@@ -147,6 +147,11 @@ def impl_case(case):
             except ValueError as e:
                 if "Unspecified Parameters" not in str(e): problems.append("simulate %s raised %s" % (op[1], str(e)[:100]))
                 continue
+            except TypeError as e:
+                # loose integrator tolerances let LSODA step a count below zero; a Hill term then raises "Cannot convert 'complex'"
+                # (DESIGN.md, observations): the run is abandoned, the history goes on
+                if op[1] == "det_loose" and "Cannot convert 'complex'" in str(e): continue
+                raise
             after = (dict(M.get_species_dictionary()), dict(M.get_parameter_dictionary()))
             nan_eq = lambda a, b: set(a) == set(b) and all(a[x] == b[x] or (a[x] != a[x] and b[x] != b[x]) or (a[x] == -1 and b[x] == 0) for x in a)
             if not nan_eq(before[0], after[0]): problems.append("simulate %s changed the initial condition: %r -> %r" % (op[1], before[0], after[0]))
